@@ -428,7 +428,7 @@ fn known_exception(a: &A, op: &str, x: NodeId, y: Option<NodeId>) -> Option<&'st
     }
 }
 
-fn step(s: &mut Sess, rng: &mut Rng, sink: &mut Sink, w: [usize; 4], cap: usize) {
+fn step(s: &mut Sess, rng: &mut Rng, sink: &mut Sink, w: [usize; 4], cap: usize, avoid_known: bool) {
     // choose an op
     let live = s.of_class(Class::Live).len();
     let r = rng.below(100);
@@ -468,6 +468,7 @@ fn step(s: &mut Sess, rng: &mut Rng, sink: &mut Sink, w: [usize; 4], cap: usize)
                 }
             }
             let known = if cx == Class::Live && valid_before && op == "rm" { known_exception(&s.a, op, x, None) } else { None };
+            if known.is_some() && avoid_known && !rng.chance(1, 8) { sink.stat("skipped.known-exit"); return; }
             if op != "det" && cx != Class::Live && cx != Class::Stale { s.double_free = true; sink.stat("double-free-call"); }
             let r = guarded(|| call1(op, x, &mut s.a));
             let res = if r.is_some() { "ok" } else { "panic" };
@@ -482,7 +483,8 @@ fn step(s: &mut Sess, rng: &mut Rng, sink: &mut Sink, w: [usize; 4], cap: usize)
         }
         "app" | "pre" | "ia" | "ib" | "uapp" | "upre" | "uia" | "uib" => {
             let x = match s.arg(rng, w) { Some(x) => x, None => return };
-            let y = if rng.chance(1, 25) { x } else { match s.arg(rng, w) { Some(y) => y, None => return } };
+            let mut y = if rng.chance(1, 25) { x } else { match s.arg(rng, w) { Some(y) => y, None => return } };
+            if y == x && rng.chance(4, 5) { y = match s.arg(rng, w) { Some(y) => y, None => return }; }
             let (cx, cy) = (s.classify(x), s.classify(y));
             sink.stat(&format!("arg.{}.{}-{}", op, class_name(cx), class_name(cy)));
             let req = format!("{} {} {}", op, wid(x), wid(y));
@@ -497,6 +499,7 @@ fn step(s: &mut Sess, rng: &mut Rng, sink: &mut Sink, w: [usize; 4], cap: usize)
             }
             let all_live = cx == Class::Live && cy == Class::Live && valid_before;
             let known = if all_live { known_exception(&s.a, op, x, Some(y)) } else { None };
+            if known.is_some() && avoid_known && !rng.chance(1, 8) { sink.stat("skipped.known-exit"); return; }
             let before = format!("{:?}", s.a);
             let checked = !op.starts_with('u');
             let r: Option<Result<(), indextree::NodeError>> = guarded(|| call2(op, x, y, &mut s.a));
@@ -560,13 +563,16 @@ fn finish(s: Sess, sink: &mut Sink) {
 
 fn history(rng: &mut Rng, sink: &mut Sink, profile: usize) {
     let mut s = Sess::new(rng);
-    // profile 0: live arguments only; 1: mixed; 2: small arena, heavy reuse, stale ids; 3: saturation
+    // profile 0: live arguments only; 1: mixed; 2: small arena, heavy reuse, stale ids; 3: saturation;
+    // 4: tiny arena, live arguments only, long: deep slot reuse on a valid arena
     let (w, cap, len): ([usize; 4], usize, usize) = match profile {
-        0 => ([1, 0, 0, 0], 10, 10 + rng.below(25)),
+        0 => ([1, 0, 0, 0], 10, 10 + rng.below(30)),
         1 => ([12, 3, 3, 1], 9, 10 + rng.below(25)),
-        2 => ([8, 3, 6, 0], 4, 20 + rng.below(30)),
+        2 => ([20, 3, 4, 0], 4, 20 + rng.below(30)),
+        4 => ([1, 0, 0, 0], 3, 30 + rng.below(40)),
         _ => ([6, 2, 4, 0], 3, 6 + rng.below(10)),
     };
+    let avoid_known = profile == 0 || profile == 4;
     sink.stat(&format!("profile.{}", profile));
     if profile == 3 {
         // bring slot 0 next to the saturation of the 15-bit stamp
@@ -580,7 +586,7 @@ fn history(rng: &mut Rng, sink: &mut Sink, profile: usize) {
     }
     for _ in 0..len {
         if s.stop { break; }
-        step(&mut s, rng, sink, w, cap);
+        step(&mut s, rng, sink, w, cap, avoid_known);
         if !s.stop && rng.chance(1, 6) { do_iters(&mut s, rng, sink); }
     }
     if !s.stop || s.corrupt_steps > 0 { do_iters(&mut s, rng, sink); }
@@ -645,7 +651,7 @@ pub fn run(seed: u64, count: usize, tier: &str, sink: &mut Sink) {
     let mut rng = Rng::new(seed ^ 0xA2E7A);
     if tier == "thorough" { directed(sink); }
     for k in 0..count {
-        let profile = match k % 20 { 0..=7 => 0, 8..=13 => 1, 14..=18 => 2, _ => if k % 200 == 19 { 3 } else { 2 } };
+        let profile = match k % 20 { 0..=6 => 0, 7..=11 => 1, 12..=15 => 2, 16..=18 => 4, _ => if k % 100 == 19 { 3 } else { 4 } };
         history(&mut rng, sink, profile);
     }
 }
